@@ -7,6 +7,27 @@ import traceback
 
 from .core import Ctx, Machinery, VERIF
 
+# Unbounded companions (TLAPS proofs in spec/proofs, ~1 s each) of invariants that TLC checks on small domains, per
+# property; MC_ProofLinks (TLC) ties the exact-rational operators of the specifications to the proved polynomials.
+PROOFS = {
+    'C01': [('StatsLemma', 'DepthLayerStep: one layer never lowers the depth nor adds more than an opaque layer')],
+    'C04': [('ConvexLemma', 'LinBetween, BilinearAboveLowerBound, BilinearBelowUpperBound: interpolants stay in the hull of their nodes')],
+    'C05': [('StatsLemma', 'WeightedMeanStep: an overlap-weighted mean stays between the bounds of its terms')],
+    'C09': [('StatsLemma', 'WeightedMeanStep: the weighted mean stays between the bounds of the samples')],
+    'C10': [('ConvexLemma', 'LinBetween: a profile interpolated between two control values stays between them')],
+    'C12': [('ConvexLemma', 'LinBetween: a node-interpolated temperature stays between its two nodes')],
+    'C13': [('ConvexLemma', 'LinBetween: an opacity interpolated on other points lies between the neighbouring native values')],
+    'C18': [('StatsLemma', 'WelfordStep, CombineTwoRanks: streaming update and rank combination equal the two-pass sums')],
+}
+LINKS = ('C04', 'C10', 'C12', 'C13', 'C18')
+
+
+def run_proofs(ctx, pid):
+    for module, theorems in PROOFS.get(pid, ()):
+        ctx.check_proofs(module, theorems)
+    if pid in LINKS:
+        ctx.check_spec('proof-links (Rat operators = cleared-denominator polynomials)', 'MC_ProofLinks', 'MC_ProofLinks.cfg', workers=2)
+
 
 def main(argv):
     if len(argv) < 2:
@@ -41,6 +62,7 @@ def main(argv):
             drv.replay(ctx, data.get('violations', []))
         else:
             drv.run(ctx)
+            run_proofs(ctx, pid)
         return ctx.finish()
     except Machinery as e:
         print('MACHINERY-FAILURE property=%s: %s' % (pid, e))
